@@ -623,8 +623,8 @@ def run_obligation(ob, seed, tier):
                 rep = {"inputs": cand, "reproduced": False}
                 try:
                     ctx = _run_native_once(ob, inputs=cand)
-                    if ctx is not None and label in ctx.failed:
-                        rep["reproduced"] = True
+                    if ctx is not None and (label in ctx.failed or any(f.startswith(label + "[") for f in ctx.failed)):
+                        rep["reproduced"] = True      # natively a comparison may be reported per component: label[component]
                     elif ctx is not None and ctx.failed:
                         rep["other_failed"] = ctx.failed[:3]
                 except BaseException as e:
